@@ -332,6 +332,52 @@ func parseDecls(s string) ([]interceptor.RTPHeaderExtension, bool) {
 	return out, true
 }
 
+// c15NearMiss: URIs that are NOT the transport-cc URI although they look like it.  RFC 8285 (section 5: "the URI
+// ... MUST be compared as case-sensitive strings") and the property text ("streams that did not negotiate the
+// extension pass through untouched") make a stream that declares only such entries a stream without the extension:
+// it is not stamped and consumes no number; next to an exact entry the exact entry's id is the negotiated one.
+// `bind ... near=<i>.<k>,...` gives the i-th declared entry (an `o` entry: "some other URI" for the model) the
+// k-th of these URIs; the Lean driver does not read the field.
+var c15NearMiss = []string{
+	"HTTP://www.ietf.org/id/draft-holmer-rmcat-transport-wide-cc-extensions-01",  // scheme in upper case
+	"http://WWW.IETF.ORG/id/draft-holmer-rmcat-transport-wide-cc-extensions-01",  // host in upper case
+	"http://www.ietf.org/id/Draft-Holmer-Rmcat-Transport-Wide-CC-Extensions-01",  // title case
+	"HTTP://WWW.IETF.ORG/ID/DRAFT-HOLMER-RMCAT-TRANSPORT-WIDE-CC-EXTENSIONS-01",  // all upper case
+	"http://www.ietf.org/id/draft-holmer-rmcat-transport-wide-cc-extensions-01/", // trailing slash
+	"http://www.ietf.org/id/draft-holmer-rmcat-transport-wide-cc-extensions-01 ", // trailing space
+	" http://www.ietf.org/id/draft-holmer-rmcat-transport-wide-cc-extensions-01", // leading space
+	"http://www.ietf.org/id/draft-holmer-rmcat-transport-wide-cc-extensions-02",  // the later draft (another format)
+	"http://www.ietf.org/id/draft-holmer-rmcat-transport-wide-cc-extensions",     // a prefix
+	"http://www.ietf.org/id/draft-holmer-rmcat-transport-wide-cc-extensions-0",   // one character short
+	"http://www.ietf.org/id/draft-holmer-rmcat-transport-wide-cc-extensions-011", // one character more
+	"www.ietf.org/id/draft-holmer-rmcat-transport-wide-cc-extensions-01",         // a suffix
+	"https://www.ietf.org/id/draft-holmer-rmcat-transport-wide-cc-extensions-01", // another scheme
+	"http://www.ietf.org/id/draft-holmer-rmcat-transport-wide-cc-extensions-01\n", // trailing newline
+	"http://www.ietf.org/id/draft-holmer-rmcat-transport-wide-cc-extensions-01#x", // fragment
+	"http://www.ietf.org/id/draft-holmer-rmcat-transport_wide_cc-extensions-01",  // underscores
+	"http://www.webrtc.org/experiments/rtp-hdrext/abs-send-time",                 // a real neighbour
+	"transport-cc", // the RTCP feedback name, not an extension URI
+	"",
+}
+
+// c15ApplyNear rewrites the URIs named by `near=`; an entry that is not an `o` entry (or does not exist) is left alone.
+func c15ApplyNear(ds []interceptor.RTPHeaderExtension, near string) {
+	if near == "" || near == "-" {
+		return
+	}
+	for _, e := range strings.Split(near, ",") {
+		ik := strings.SplitN(e, ".", 2)
+		if len(ik) != 2 {
+			continue
+		}
+		i, k := atoi(ik[0]), atoi(ik[1])
+		if i < 0 || i >= len(ds) || k < 0 || k >= len(c15NearMiss) || ds[i].URI == twccURI {
+			continue
+		}
+		ds[i].URI = c15NearMiss[k]
+	}
+}
+
 // c15Owned is something the CALLER owns and may still look at after Write returned: a receive buffer a header
 // was parsed from, or a slice it handed to SetExtension / passed as payload.  `orig` is its content at hand-over.
 type c15Owned struct {
@@ -411,6 +457,31 @@ func c15RunCase(t *testing.T, ops []string, o *Out, settle func(), app *App) {
 		}
 	}
 	bufs := map[int][]byte{}
+	// the EDITING transport (`ed=<bits>` on a write / writeu op, never together with `retain`): once it has put the
+	// packet on the wire (the `w` line) the bottom writer treats the transport-cc element of the header it was handed
+	// as its own scratch space, the way a forwarding hop that rewrites abs-send-time / transport-cc elements does:
+	// bit 0 rewrites the payload bytes h.GetExtension(id) returns in place, bit 1 appends to that slice.  The header
+	// a writer is handed is the writer's for the duration of the call; later packets still carry THEIR numbers.
+	negID := map[int]uint8{}
+	var edit int
+	var editID uint8
+	scribbleExt := func(h *rtp.Header) {
+		if edit == 0 || retain || h == nil || editID == 0 {
+			return
+		}
+		e := h.GetExtension(editID)
+		if e == nil {
+			return
+		}
+		if edit&1 != 0 {
+			for i := range e {
+				e[i] = ^e[i] - byte(i)
+			}
+		}
+		if edit&2 != 0 {
+			_ = append(e, 0xDE, 0xAD, 0xBE, 0xEF, 0xDE, 0xAD, 0xBE, 0xEF, 0xDE, 0xAD)
+		}
+	}
 	wline := func(h *rtp.Header, p []byte) {
 		pad := 0
 		if h != nil {
@@ -434,6 +505,7 @@ func c15RunCase(t *testing.T, ops []string, o *Out, settle func(), app *App) {
 			held = append(held, kept{h, p})
 		} else {
 			wline(h, p)
+			scribbleExt(h)
 		}
 		return bn, c15BottomErrs[be].err
 	})
@@ -456,6 +528,7 @@ func c15RunCase(t *testing.T, ops []string, o *Out, settle func(), app *App) {
 				build()
 				writers = map[int]interceptor.RTPWriter{}
 				sent = map[[2]int]*c15Sent{}
+				negID = map[int]uint8{}
 				ic.VerifSetNextSequenceNr(uint32(v))
 			case "bind":
 				ds, ok := parseDecls(m["exts"])
@@ -464,6 +537,14 @@ func c15RunCase(t *testing.T, ops []string, o *Out, settle func(), app *App) {
 					return
 				}
 				s := atoi(m["s"])
+				c15ApplyNear(ds, m["near"])
+				negID[s] = 0
+				for _, d := range ds {
+					if d.URI == twccURI { // the exact URI: what the stream negotiated
+						negID[s] = uint8(d.ID) //nolint:gosec
+						break
+					}
+				}
 				info := app.BindInfo(&interceptor.StreamInfo{SSRC: uint32(s), RTPHeaderExtensions: ds,
 					RTCPFeedback: []interceptor.RTCPFeedback{{Type: "nack", Parameter: "pli"}, {Type: "transport-cc"}, {Type: "nack"}}})
 				nfb := len(info.RTCPFeedback)
@@ -512,7 +593,9 @@ func c15RunCase(t *testing.T, ops []string, o *Out, settle func(), app *App) {
 					return
 				}
 				bn, be = atoi(m["bn"]), code
+				edit, editID = atoi("0"+m["ed"]), negID[atoi(m["s"])]
 				rn, werr := w.Write(h, b[n:], interceptor.Attributes{})
+				edit = 0
 				o.P("ret n=%d err=%s", rn, c15ErrClass(werr))
 			case "flush":
 				for _, k := range held {
@@ -555,7 +638,9 @@ func c15RunCase(t *testing.T, ops []string, o *Out, settle func(), app *App) {
 				}
 				lastWire = false
 				// with `reusehdr=1` the application fills its one long-lived header in place (ambient_test.go)
+				edit, editID = atoi("0"+m["ed"]), negID[atoi(m["s"])]
 				n, err := w.Write(o.Header(h), pl, o.Attrs(interceptor.Attributes{}))
+				edit = 0
 				o.P("ret n=%d err=%s", n, c15ErrClass(err))
 				if keep != nil {
 					keep.line, keep.wire = lastLine, lastWire
@@ -798,6 +883,11 @@ func init() {
 			if cs.Class != "conc" && ar.Chance(2, 3) {
 				cs.Ops = withApp(cs.Ops, genApp(ar, 0, 3, 2, 0))
 			}
+			// in a quarter of the cases of every class the "other" URIs of the StreamInfos are near misses of the
+			// transport-cc URI (c15NearMiss): they are other URIs
+			if cs.Class != "conc" && cs.Class != "nearmiss" && ar.Chance(1, 4) {
+				cs.Ops = c15AddNear(ar, cs.Ops, 2)
+			}
 			return cs
 		},
 		Run: c15Run,
@@ -825,12 +915,174 @@ func c15Decls(r *Rng, id int) string {
 	return strings.Join(parts, ",")
 }
 
+// c15AddNear gives `o` entries of the bind ops a near-miss URI (each with chance 1/den).
+func c15AddNear(r *Rng, ops []string, den int) []string {
+	out := make([]string, len(ops))
+	for j, op := range ops {
+		out[j] = op
+		name, m := kv(op)
+		if name != "bind" || m["exts"] == "" || m["exts"] == "-" || m["near"] != "" {
+			continue
+		}
+		var near []string
+		for i, e := range strings.Split(m["exts"], ",") {
+			if strings.HasPrefix(e, "o:") && r.Chance(1, den) {
+				near = append(near, fmt.Sprintf("%d.%d", i, r.Intn(len(c15NearMiss))))
+			}
+		}
+		if len(near) > 0 {
+			out[j] = op + " near=" + strings.Join(near, ",")
+		}
+	}
+	return out
+}
+
+// c15GenNearMiss (class `nearmiss`): streams whose StreamInfo names the exact transport-cc URI next to streams that
+// name only near misses of it (other letter case, a trailing slash or space, a prefix, a suffix, the -02 draft ...),
+// alone, several of them, with the ids real negotiations use, and streams that list a near miss BEFORE the exact
+// entry under another id.  Property text: a stream that did not negotiate the extension passes through untouched
+// (and so consumes no number: the run on the negotiated streams stays gap-free); the negotiated id is the id of the
+// entry with THE URI.
+func c15GenNearMiss(r *Rng) []string {
+	var ops []string
+	if r.Chance(1, 3) {
+		ops = append(ops, "retain")
+	}
+	switch r.Intn(3) {
+	case 0:
+		ops = append(ops, fmt.Sprintf("setc v=%d", r.Range(1, 5)*65536-r.Range(0, 6)))
+	case 1:
+		ops = append(ops, fmt.Sprintf("setc v=%d", r.U64()&0xFFFFFFFF))
+	}
+	ns := r.Range(2, 4)
+	ids := make([]int, ns)
+	for s := 0; s < ns; s++ {
+		exact := s == 0 || r.Chance(1, 3) // stream 0 always negotiated: its numbers show whether others consume any
+		var parts, near []string
+		add := func(kind string, id int, k int) {
+			if k >= 0 {
+				near = append(near, fmt.Sprintf("%d.%d", len(parts), k))
+			}
+			parts = append(parts, fmt.Sprintf("%s:%d", kind, id))
+		}
+		if r.Chance(1, 3) {
+			add("o", r.Range(1, 14), -1)
+		}
+		nearID := r.Range(1, 14)
+		// the near misses of this stream (one to three), before and/or after the exact entry
+		nBefore, nAfter := r.Pick(1, 1, 0, 2), r.Pick(0, 0, 1)
+		if !exact && nBefore+nAfter == 0 {
+			nBefore = 1
+		}
+		for i := 0; i < nBefore; i++ {
+			add("o", nearID, r.Intn(len(c15NearMiss)))
+			nearID = nearID%14 + 1
+		}
+		ids[s] = 0
+		if exact {
+			ids[s] = nearID%14 + 1
+			if r.Chance(1, 6) {
+				ids[s] = r.Range(15, 255)
+			}
+			add("t", ids[s], -1)
+		}
+		for i := 0; i < nAfter; i++ {
+			add("o", r.Range(1, 14), r.Intn(len(c15NearMiss)))
+		}
+		if r.Chance(1, 4) {
+			add("o", r.Range(1, 20), -1)
+		}
+		op := fmt.Sprintf("bind s=%d exts=%s", s, strings.Join(parts, ","))
+		if len(near) > 0 {
+			op += " near=" + strings.Join(near, ",")
+		}
+		ops = append(ops, op)
+	}
+	n := r.Range(6, 16)
+	for i := 0; i < n; i++ {
+		s := r.Intn(ns)
+		kind := r.Pick(0, 1, 2, 1, 2, 4)
+		// elements that are already in the header: the id the near miss was declared with among them
+		h := genHdr(r, kind, r.Range(1, 14))
+		pl := genPayload(r)
+		be := 0
+		if r.Chance(1, 8) {
+			be = r.Range(1, len(c15BottomErrs)-1)
+		}
+		ops = append(ops, fmt.Sprintf("write s=%d %s pl=%s bn=%d be=%d", s, h.String(), hexs(pl), r.Pick(len(pl), 0, 1500), be))
+	}
+	return append(ops, "flush")
+}
+
+// c15GenEditW (class `editw`): the transport below edits what it is handed.  The bottom writer rewrites in place the
+// payload bytes of the transport-cc element it finds (h.GetExtension(id)) and/or appends to that slice (`ed=` bits,
+// see scribbleExt) - it owns the header for the call.  Every later packet still leaves with ITS number (property
+// text: the numbers form one gap-free run mod 2^16, each packet carries the number it was assigned): the next
+// packets, and - after a burst that takes the counter once around the 16-bit space - the packets that get the SAME
+// 16-bit numbers as the edited ones.
+func c15GenEditW(r *Rng) []string {
+	var ops []string
+	switch r.Intn(3) {
+	case 0:
+		ops = append(ops, fmt.Sprintf("setc v=%d", r.Range(1, 5)*65536-r.Range(0, 6)))
+	case 1:
+		ops = append(ops, fmt.Sprintf("setc v=%d", r.U64()&0xFFFFFFFF))
+	}
+	ns := r.Range(1, 3)
+	ids := make([]int, ns)
+	for s := 0; s < ns; s++ {
+		ids[s] = r.Range(1, 14)
+		if s > 0 && r.Chance(1, 5) {
+			ids[s] = r.Pick(0, -1000, 15, 200) // not negotiated (never edited) / a two-byte id
+		}
+		ops = append(ops, fmt.Sprintf("bind s=%d exts=%s", s, c15Decls(r, ids[s])))
+	}
+	consumed := 0
+	write := func(edChance int) {
+		s := r.Intn(ns)
+		eff := ids[s]
+		if eff < 0 || eff > 255 {
+			eff = 0
+		}
+		kind := r.Pick(0, 1, 2, 1, 2, 4)
+		if eff > 14 {
+			kind = r.Pick(2, 2, 0, 1)
+		}
+		h := genHdr(r, kind, eff)
+		pl := genPayload(r)
+		ed := 0
+		if r.Chance(edChance, 4) {
+			ed = r.Pick(1, 2, 3, 1, 3)
+		}
+		be := 0
+		if r.Chance(1, 10) {
+			be = r.Range(1, len(c15BottomErrs)-1)
+		}
+		ops = append(ops, fmt.Sprintf("write s=%d %s pl=%s bn=%d be=%d ed=%d", s, h.String(), hexs(pl), r.Pick(len(pl), 0, 1500), be, ed))
+		if eff != 0 {
+			consumed++ // every Write on a negotiated stream takes a number, accepted or not
+		}
+	}
+	n1 := r.Range(3, 9)
+	for i := 0; i < n1; i++ {
+		write(3)
+	}
+	if !r.Chance(1, 5) {
+		// once around: the next write gets the 16-bit number of one of the first writes again
+		ops = append(ops, fmt.Sprintf("burst s=0 n=%d", 65536-consumed+r.Pick(0, 0, 1, 2)))
+	}
+	for i := r.Range(n1, n1+6); i > 0; i-- {
+		write(1)
+	}
+	return append(ops, "flush")
+}
+
 func c15Gen(r *Rng, tier string, idx int) Case {
 	// the framework seeds case i with s0+i*gamma and splitmix64 steps by the same gamma, so the
 	// raw streams of neighbouring cases are shifted copies of each other; re-key from one output.
 	r = NewRng(r.U64() ^ 0xC15C15C15)
 	classes := []string{"onebyte", "twobyte", "noext", "mixed", "excluded", "wrap16", "wrap32", "stale", "burst", "alias", "faults",
-		"rtxinner", "rtxouter"}
+		"rtxinner", "rtxouter", "nearmiss", "editw"}
 	cl := classes[idx%len(classes)]
 	concEvery := 125
 	if tier == "thorough" {
@@ -871,6 +1123,12 @@ func c15Gen(r *Rng, tier string, idx int) Case {
 	}
 	if cl == "rtxinner" || cl == "rtxouter" {
 		return Case{Class: cl, Ops: c15GenRtx(r, cl == "rtxinner")}
+	}
+	if cl == "nearmiss" {
+		return Case{Class: cl, Ops: c15GenNearMiss(r)}
+	}
+	if cl == "editw" {
+		return Case{Class: cl, Ops: c15GenEditW(r)}
 	}
 	// the bottom writer's result: mostly success; failures with different error VALUES
 	faultDen := 6
